@@ -152,6 +152,36 @@ def broadcastBatcher {α : Type} (f : List α → α) (args : List (Tensor α ×
         let a2 := a1.map fun p => handleScalar ndim p.1 p.2
         some (bindPointwise f a2, 0)
 
+
+/-! ## reduction batch rule (mirror of `numpy/_reduction_utils.register_reduction_batch_rule`) -/
+
+/-- Per-example reduction axes as the plugin normalises them (`int(ax) % slice_rank`; `None` = all). -/
+def normAxes (sliceRank : Nat) (axes : Option (List Int)) : List Nat :=
+  match axes with
+  | none => List.range sliceRank
+  | some l => l.map fun a => (a % (sliceRank : Int)).toNat
+
+/-- What the rule binds the primitive to for a mapped operand: the operand shape after
+    `bdim_at_front`, the reduction axes of the batched operand, and the batch dim it reports. -/
+def reductionBatchRule (shape : List Nat) (bdim : Nat) (axes : Option (List Int)) :
+    List Nat × List Nat × Nat :=
+  let moved := shape.getD bdim 1 :: removeAt bdim shape
+  (moved, (normAxes (moved.length - 1) axes).map (· + 1), 0)
+
+/-- Shape of a reduction over `axes` (with or without `keepdims`), position `i` onwards. -/
+def reduceShapeFrom (keepdims : Bool) (axes : List Nat) : Nat → List Nat → List Nat
+  | _, [] => []
+  | i, d :: ds =>
+    if i ∈ axes then (if keepdims then 1 :: reduceShapeFrom keepdims axes (i + 1) ds
+                      else reduceShapeFrom keepdims axes (i + 1) ds)
+    else d :: reduceShapeFrom keepdims axes (i + 1) ds
+def reduceShape (keepdims : Bool) (axes : List Nat) (s : List Nat) : List Nat :=
+  reduceShapeFrom keepdims axes 0 s
+
+/-- The tempting "reduce in place" alternative: keep the batch axis where it is and report
+    `bdim − #(reduced axes in front of it)` — right only without `keepdims`. -/
+def inPlaceOutDim (bdim : Nat) (axesFull : List Nat) : Nat := bdim - (axesFull.filter (· < bdim)).length
+
 /-! ## rule-forwarding policy (mirror of `register_original_rule_forwarding`) -/
 
 /-- The decision of `register_original_rule_forwarding`: forward iff the pair is allowlisted. -/
